@@ -125,6 +125,19 @@ Arrow(k)   == InD(Pos(k)) /\ Look("Arrow", k, NoArg, Val(IDeref(Pos(k))))
 Eq(k)      == InR(Pos(k)) /\ Look("Eq", k, NoArg, Val(IEq(Pos(k), Pos(Other(k)))))
 Ne(k)      == InR(Pos(k)) /\ Look("Ne", k, NoArg, Val(INe(Pos(k), Pos(Other(k)))))
 Assign(k)  == InR(Pos(Other(k))) /\ Move("Assign", k, NoArg, Pos(Other(k)), Void)                                  \* it_k = it_other (copy)
+(* round 3: *it++ and *it-- ([forward.iterators] table: *r++ yields the element at the OLD position; the same for a   *)
+(* bidirectional *r--); the temporary that the postfix operator returns is dereferenced, also for proxy references     *)
+PostIncDeref(k) == InD(Pos(k)) /\ Move("PostIncDeref", k, NoArg, Pos(k) + 1, Val(IDeref(Pos(k))))
+PostDecDeref(k) == InD(Pos(k)) /\ InR(Pos(k) - 1) /\ Move("PostDecDeref", k, NoArg, Pos(k) - 1, Val(IDeref(Pos(k))))
+(* a default-initialised (singular) iterator `It t;` may be assigned to and destroyed ([iterator.requirements.general]/7): *)
+(* { It t; t = it_k; observe t; } - afterwards t denotes the position of it_k                                              *)
+DcAssign(k) == cfg.dc /\ InR(Pos(k)) /\ Look("DcAssign", k, NoArg, ItRes(Pos(k)))
+(* multi-pass guarantee ([forward.iterators]/6): two copies c1, c2 of it_k; c1 is advanced m times by ++c1 (elements   *)
+(* read before each step), THEN c2 m times by c2++: both read the same m elements, c1 == c2 afterwards, and it_k itself *)
+(* has not moved (it stays in the projection)                                                                            *)
+MultiPass(k, m) == m >= 0 /\ InR(Pos(k) + m) /\
+                   Look("MultiPass", k, [m |-> m], [first |-> Slice(Pos(k), Pos(k) + m), second |-> Slice(Pos(k), Pos(k) + m),
+                                                    eq |-> TRUE, it |-> ObsAt(Pos(k) + m)])
 
 (* ---- random-access operations, difference_type arguments ---- *)
 AddAssign(k, d) == cfg.ra /\ InR(IPlus(Pos(k), d))     /\ Move("AddAssign", k, K(d), IPlus(Pos(k), d),  ItRes(IPlus(Pos(k), d)))
@@ -191,6 +204,44 @@ StdSort(k)         == cfg.std /\ cfg.mut /\ cfg.ra /\ RangeOK(k) /\
                          [x \in 1..Len(under) |-> IF InRange(k, x) THEN SortedSeq(Slice(Lo(k), Hi(k)))[((x - 1) \div step) - Lo(k) + 1]
                                                                    ELSE under[x]], Void)
 
+(* round 3: std::rotate(a, a + m, b): element i of the new range is element (i + m) mod len of the old one; returns a + (b - (a + m)) *)
+RotSrc(k, m, i) == Lo(k) + ((i - Lo(k) + m) % (Hi(k) - Lo(k)))
+RotUnder(k, m) == [x \in 1..Len(under) |-> IF InRange(k, x) THEN Elem(RotSrc(k, m, (x - 1) \div step)) ELSE under[x]]
+StdRotate(k, m)    == cfg.std /\ cfg.mut /\ RangeOK(k) /\ m \in 0..(Hi(k) - Lo(k)) /\
+                      LET nu == RotUnder(k, m)
+                          r  == Lo(k) + (Hi(k) - (Lo(k) + m))
+                      IN Do("StdRotate", k, [m |-> m], p, q, nu,          \* the returned iterator is observed AFTER the rotation
+                            [it |-> [c |-> r, d |-> IF cfg.ra THEN r ELSE NA, e |-> IF cfg.ra THEN n - r ELSE NA,
+                                     v |-> IF r < n THEN nu[r * step + 1] ELSE <<>>]])
+(* std::copy(a, b, d) INSIDE the container, d = the iterator at position j outside [a, b) with room for the range: every   *)
+(* element is assigned reference-to-reference ( *d = *a : for proxy references that must assign the referent); returns d + (b - a) *)
+StdCopyWithin(k, j) == cfg.std /\ cfg.mut /\ RangeOK(k) /\ j \in 0..n /\ (j <= Lo(k) \/ j >= Hi(k)) /\ j + (Hi(k) - Lo(k)) <= n /\
+                       LET len == Hi(k) - Lo(k)
+                           Dst(x) == (x - 1) % step = 0 /\ ((x - 1) \div step) \in j..(j + len - 1)
+                           nu == [x \in 1..Len(under) |-> IF Dst(x) THEN Elem(Lo(k) + (((x - 1) \div step) - j)) ELSE under[x]]
+                           r  == j + len
+                       IN Do("StdCopyWithin", k, [j |-> j], p, q, nu,
+                             [it |-> [c |-> r, d |-> IF cfg.ra THEN r ELSE NA, e |-> IF cfg.ra THEN n - r ELSE NA,
+                                      v |-> IF r < n THEN nu[r * step + 1] ELSE <<>>]])
+(* std::min_element(a, b, lexicographic-less): the FIRST smallest element, b for an empty range *)
+StdMinElement(k)   == cfg.std /\ RangeOK(k) /\
+                      Look("StdMinElement", k, NoArg,
+                           ItRes(IF Lo(k) = Hi(k) THEN Hi(k)
+                                 ELSE CHOOSE x \in Lo(k)..(Hi(k) - 1) : /\ \A y \in Lo(k)..(Hi(k) - 1) : ~TupLt(Elem(y), Elem(x))
+                                                                        /\ \A y \in Lo(k)..(x - 1) : TupLt(Elem(x), Elem(y))))
+
+(* ---- round 3, mixed iterator / const_iterator expressions (where the container offers the conversion; the property  *)
+(* statement does not name them: the binding reports deviations as advisory).  ToConst: const_iterator c = it_k, seen  *)
+(* through observers that start from cbegin() / cend().  MixedCmp: it_k OP const_iterator(it_other).                    *)
+ToConst(k)     == InR(Pos(k)) /\ Look("ToConst", k, NoArg, ItRes(Pos(k)))
+MixedOps == {"eq", "ne"} \cup (IF cfg.ra THEN {"lt", "le", "gt", "ge", "diff"} ELSE {})
+MixedCmp(k, o) == o \in MixedOps /\
+                  Look("MixedCmp", k, [o |-> o],
+                       Val(CASE o = "eq" -> IEq(Pos(k), Pos(Other(k))) [] o = "ne" -> INe(Pos(k), Pos(Other(k)))
+                             [] o = "lt" -> ILt(Pos(k), Pos(Other(k))) [] o = "le" -> ILe(Pos(k), Pos(Other(k)))
+                             [] o = "gt" -> IGt(Pos(k), Pos(Other(k))) [] o = "ge" -> IGe(Pos(k), Pos(Other(k)))
+                             [] o = "diff" -> IDiff(Pos(k), Pos(Other(k)))))
+
 (* ---- value-initialised iterators (C++14 [forward.iterators]/2): It a{}, b{}; a OP b ---- *)
 ViOps == {"eq", "ne"} \cup (IF cfg.ra THEN {"lt", "le", "gt", "ge"} ELSE {})
 ValueInit(o) == cfg.dc /\ o \in ViOps /\ Look("ValueInit", 1, [o |-> o], Val(o \in {"eq", "le", "ge"}))
@@ -245,10 +296,13 @@ Init ==
 Next ==
     \/ \E k \in {1, 2} :
         \/ PreInc(k) \/ PostInc(k) \/ PreDec(k) \/ PostDec(k) \/ Deref(k) \/ Arrow(k) \/ Eq(k) \/ Ne(k) \/ Assign(k)
+        \/ PostIncDeref(k) \/ PostDecDeref(k) \/ DcAssign(k) \/ StdMinElement(k) \/ ToConst(k)
+        \/ \E m \in 0..MaxN : MultiPass(k, m) \/ StdRotate(k, m)
+        \/ \E o \in {"eq", "ne", "lt", "le", "gt", "ge", "diff"} : MixedCmp(k, o)
         \/ Diff(k) \/ Lt(k) \/ Le(k) \/ Gt(k) \/ Ge(k) \/ StdDistance(k)
         \/ StdCopy(k) \/ StdCopyBackward(k) \/ StdReverseCopy(k) \/ StdReverse(k) \/ StdSort(k) \/ EqualM(k) \/ LessThanM(k)
         \/ \E j \in 0..(MaxN + 1) : StdFindJ(k, j) \/ StdCountJ(k, j) \/ StdLowerBoundJ(k, j)
-        \/ \E j \in 0..MaxN : StdEqual(k, j)
+        \/ \E j \in 0..MaxN : StdEqual(k, j) \/ StdCopyWithin(k, j)
         \/ \E d \in Offs : \/ AddAssign(k, d) \/ SubAssign(k, d) \/ Plus(k, d) \/ PlusLeft(k, d) \/ Minus(k, d) \/ Index(k, d)
                            \/ PlusU(k, d) \/ PlusLeftU(k, d) \/ MinusU(k, d) \/ IndexU(k, d)
                            \/ StdAdvance(k, d) \/ StdNext(k, d) \/ StdPrev(k, d)
@@ -309,13 +363,16 @@ PostfixReturnsOld ==
     [][/\ last'.op \in {"PostInc", "PostDec"} => last'.res.it.c = Pos(last'.k) /\ pre'.p = p /\ pre'.q = q
        /\ last'.op = "PostInc" => PosAfter(last'.k) = Pos(last'.k) + 1
        /\ last'.op = "PostDec" => PosAfter(last'.k) = Pos(last'.k) - 1
-       /\ last'.op \in {"PreInc", "PreDec", "AddAssign", "SubAssign"} => last'.res.it.c = PosAfter(last'.k)]_vars
+       /\ last'.op \in {"PreInc", "PreDec", "AddAssign", "SubAssign"} => last'.res.it.c = PosAfter(last'.k)
+       /\ last'.op = "PostIncDeref" => last'.res.val = Elem(Pos(last'.k)) /\ PosAfter(last'.k) = Pos(last'.k) + 1
+       /\ last'.op = "PostDecDeref" => last'.res.val = Elem(Pos(last'.k)) /\ PosAfter(last'.k) = Pos(last'.k) - 1
+       /\ last'.op \in {"PostIncDeref", "PostDecDeref"} => Pos(Other(last'.k)) = (IF last'.k = 1 THEN q' ELSE p')]_vars
 ObserverOps == {"Deref", "Arrow", "Eq", "Ne", "Diff", "Lt", "Le", "Gt", "Ge", "Plus", "PlusLeft", "Minus", "Index",
                 "PlusU", "PlusLeftU", "MinusU", "IndexU", "StdDistance", "StdNext", "StdPrev", "TraverseForward", "TraverseReverse",
                 "StdCopy", "StdCopyBackward", "StdReverseCopy", "StdFind", "StdCount", "StdEqual", "StdLowerBound",
-                "ValueInit", "EqualM", "LessThanM"}
+                "ValueInit", "EqualM", "LessThanM", "DcAssign", "MultiPass", "StdMinElement", "ToConst", "MixedCmp"}
 ObserversPure == [][last'.op \in ObserverOps => p' = p /\ q' = q /\ under' = under]_vars
-OnlyWritesWrite == [][under' # under => last'.op \in {"Write", "IndexWrite", "StdFill", "StdReverse", "StdSort", "Reset"}]_vars
+OnlyWritesWrite == [][under' # under => last'.op \in {"Write", "IndexWrite", "StdFill", "StdReverse", "StdSort", "StdRotate", "StdCopyWithin", "Reset"}]_vars
 (* the size_t overloads give the same result as the difference_type ones *)
 ExtAgrees ==
     [][/\ last'.op = "PlusU"     => last'.res = ItRes(IPlus(Pos(last'.k), last'.a.k))
@@ -347,7 +404,27 @@ AlgoLaws ==
        /\ o = "StdReverse" => SliceNext(k) = Rev(SliceNow(k))
        /\ o = "StdSort" => /\ IsSorted(SliceNext(k))
                            /\ \A i \in 1..(Hi(k) - Lo(k)) : Occ(SliceNext(k), SliceNow(k)[i]) = Occ(SliceNow(k), SliceNow(k)[i])
-       /\ o \in {"StdFill", "StdReverse", "StdSort"} =>
+       /\ o = "StdRotate" => LET m == last'.a.m  len == Hi(k) - Lo(k) IN
+             /\ \A i \in 0..(m - 1) : SliceNext(k)[len - m + i + 1] = SliceNow(k)[i + 1]            \* [a, mid) lands at the back
+             /\ \A i \in m..(len - 1) : SliceNext(k)[i - m + 1] = SliceNow(k)[i + 1]               \* [mid, b) lands at the front
+             /\ r.it.c = Lo(k) + (len - m)                                                          \* where the old first element went
+       /\ o = "StdCopyWithin" => LET j == last'.a.j  len == Hi(k) - Lo(k) IN
+             /\ \A i \in 0..(len - 1) : under'[(j + i) * step + 1] = IDeref(IPlus(Lo(k), i))             \* the copy holds the OLD source elements
+             /\ \A x \in 1..Len(under) : ~((x - 1) % step = 0 /\ ((x - 1) \div step) \in j..(j + len - 1)) => under'[x] = under[x]
+             /\ r.it.c = j + len /\ Len(under') = Len(under) /\ p' = p /\ q' = q
+       /\ o = "StdMinElement" =>
+             /\ r.it.c \in Lo(k)..Hi(k) /\ (r.it.c = Hi(k) <=> Lo(k) = Hi(k))
+             /\ r.it.c < Hi(k) => /\ \A y \in Lo(k)..(Hi(k) - 1) : ~TupLt(Elem(y), Elem(r.it.c))
+                                  /\ \A y \in Lo(k)..(r.it.c - 1) : Elem(y) # Elem(r.it.c)
+       /\ o = "MultiPass" => /\ r.first = r.second /\ Len(r.first) = last'.a.m /\ r.eq
+                             /\ \A i \in 1..last'.a.m : r.first[i] = IDeref(IPlus(Pos(k), i - 1))
+                             /\ r.it.c = Pos(k) + last'.a.m
+       /\ o \in {"DcAssign", "ToConst"} => r.it = ObsAt(Pos(k))
+       /\ o = "MixedCmp" => r.val = (CASE last'.a.o = "eq" -> Pos(k) = Pos(Other(k)) [] last'.a.o = "ne" -> Pos(k) # Pos(Other(k))
+                                        [] last'.a.o = "lt" -> IDiff(Pos(Other(k)), Pos(k)) > 0 [] last'.a.o = "le" -> ~(IDiff(Pos(k), Pos(Other(k))) > 0)
+                                        [] last'.a.o = "gt" -> IDiff(Pos(k), Pos(Other(k))) > 0 [] last'.a.o = "ge" -> ~(IDiff(Pos(Other(k)), Pos(k)) > 0)
+                                        [] last'.a.o = "diff" -> Pos(k) - Pos(Other(k)))
+       /\ o \in {"StdFill", "StdReverse", "StdSort", "StdRotate"} =>
              /\ Len(under') = Len(under) /\ p' = p /\ q' = q
              /\ \A x \in 1..Len(under) : ~InRange(k, x) => under'[x] = under[x]
        /\ o = "EqualM" => (r.val <=> IEq(Pos(k), Pos(Other(k))))
@@ -360,5 +437,5 @@ ValueInitLaws ==
 (* an iterator result always denotes a position of the range; a dereference never leaves it *)
 ResultsInRange ==
     [][/\ "it" \in DOMAIN last'.res => last'.res.it.c \in 0..n
-       /\ last'.op \in {"Deref", "Arrow", "Index", "IndexU"} => \E i \in 0..(n - 1) : last'.res.val = Elem(i)]_vars
+       /\ last'.op \in {"Deref", "Arrow", "Index", "IndexU", "PostIncDeref", "PostDecDeref"} => \E i \in 0..(n - 1) : last'.res.val = Elem(i)]_vars
 =============================================================================
